@@ -298,7 +298,7 @@ func runE4(spec RunSpec, ch *Choices) *RunResult {
 		n := 2 + ch.Pick(st, 7)
 		var ops []poolOp
 		for i := 0; i < n; i++ {
-			k := []string{"put", "take", "put-taken", "env-close", "env-block", "env-unblock", "sleep", "close-pool"}[ch.Weighted(st, []int{8, 6, 3, 2, 1, 1, 3, 0})]
+			k := []string{"put", "take", "put-taken", "env-close", "env-block", "env-unblock", "sleep", "close-pool"}[ch.Weighted(st, []int{8, 6, 3, 2, 1, 1, 3, 1})]
 			ops = append(ops, poolOp{Kind: k, Key: ch.Pick(st, nkeys), Arg: ch.Pick(st, 12)})
 		}
 		desc = append(desc, fmt.Sprintf("w%d%v", w, ops))
